@@ -25,6 +25,18 @@ for k in sorted(by):
     print('| %s | %d | %d | %d | %s |' % (k, len(rs), sum(r[2] for r in rs), sum(k in r[4] for r in rs), ' '.join(others)))
 print('| total | %d | %d | %d | |' % (len(rows), sum(r[2] for r in rows), sum(r[1] in r[4] for r in rows)))
 print()
+import re
+def batch(name):
+    m = re.match(r'C\d\d([a-z]?)-', name)
+    return {'': '1', 'b': '2', 'c': '3', 'd': '4 (asked to be as hard to find as possible)'}[m.group(1)]
+print('| batch | kept changes | caught by its own check at first evaluation | caught now |')
+print('|---|---|---|---|')
+for bname in ['1', '2', '3', '4 (asked to be as hard to find as possible)']:
+    rs = [r for r in rows if batch(r[0]) == bname]
+    print('| %s | %d | %d | %d |' % (bname, len(rs), sum(r[2] for r in rs), sum(r[1] in r[4] for r in rs)))
+print()
+print('Not caught by the target check now: ' + ', '.join('`%s`' % r[0] for r in rows if r[1] not in r[4]))
+print()
 print('Missed by the target check at first evaluation:')
 print()
 for r in rows:
